@@ -10,8 +10,8 @@ import (
 
 func init() {
 	register(&PropMeta{
-		ID:    "C01",
-		Level: "other",
+		ID:          "C01",
+		Level:       "other",
 		Explanation: "Instantiates the bookkeeping identity on the only places that can change a bankroll: (R1) the set of bankroll writers is closed and each has one of three value shapes (constructor from the joining player's chips; top-up old+chips of the player found by the request's own id; settlement) and the field's address never escapes; (R2) the settlement store credits result entry r to PlayerStates[GamePlayerIndexes[r.Idx]] for the same r, as r.Final or old+r.Changed, in a loop over the whole result list; (R3) if settlement overwrites with an absolute value then no additive writer may run while a hand is in progress (lost update); (R4) the stack handed to the hand engine is exactly that player's bankroll; (R5) at most one top-up store per call, none in a loop; (R6) the leave path writes no player field. NOT decided: zero-sum of the hand engine's results, sums over histories, a participant leaving during a hand.",
 		Rules: map[string]string{
 			"R1": "closed writer set and value shapes of TablePlayerState.Bankroll; no address escape",
